@@ -6,6 +6,9 @@
 //
 //	id L <codec> <local> <remote> ((msgs of connection 0) (msgs of connection 1) ...) -
 //
+// codec v2q = msgappv2 in QUEUED-BATCH mode: the first Write of every connection is held until all messages of
+// the connection are queued, so the writer's batch loop encodes them in one batch.
+//
 // Output: wf=<0|1> | dec=<msgs> err=<class> | dec=... (one group per connection; link heartbeats, which the
 // writer inserts on its own timer and the reader loop drops, are filtered out).
 package main
@@ -40,10 +43,24 @@ type recConn struct {
 	buf    bytes.Buffer
 	closed chan struct{}
 	once   sync.Once
+	// queued-batch mode: the FIRST Write announces itself on entered and waits for gate, so that the harness can
+	// queue further messages while the writer goroutine is still inside encode() of the first one; the writer's
+	// batch loop then takes all of them in ONE batch (one local message variable refilled per message)
+	gate    chan struct{}
+	entered chan struct{}
+	held    bool
 }
 
 func newRecConn() *recConn { return &recConn{closed: make(chan struct{})} }
 func (c *recConn) Write(p []byte) (int, error) {
+	c.mu.Lock()
+	hold := c.gate != nil && !c.held
+	c.held = true
+	c.mu.Unlock()
+	if hold {
+		close(c.entered)
+		<-c.gate
+	}
 	c.mu.Lock()
 	defer c.mu.Unlock()
 	return c.buf.Write(p)
@@ -95,12 +112,17 @@ func runLife(c *kase) string {
 	conns := parseConns(c.payload)
 	wf := 1
 	for _, ms := range conns {
-		if !wfSeq(c.codec, c.local, c.remote, ms) {
+		if !wfSeq(strings.TrimSuffix(c.codec, "q"), c.local, c.remote, ms) {
 			wf = 0
 		}
 	}
+	queued := c.codec == "v2q"
+	codec := c.codec
+	if queued {
+		codec = "v2"
+	}
 	kind := rafthttp.VerifStreamTypeMsgAppV2
-	if c.codec != "v2" {
+	if codec != "v2" {
 		kind = rafthttp.VerifStreamTypeMessage
 	}
 	sw := rafthttp.VerifStartStreamWriter(types.ID(c.local), &stats.PeerStats{}, nopRaft{})
@@ -109,6 +131,9 @@ func runLife(c *kase) string {
 	var prev *recConn
 	for _, ms := range conns {
 		conn := newRecConn()
+		if queued && len(ms) > 1 {
+			conn.gate, conn.entered = make(chan struct{}), make(chan struct{})
+		}
 		if !sw.Attach(kind, conn, conn, conn) {
 			return strings.Join(append(parts, "attach-failed"), " | ")
 		}
@@ -134,15 +159,34 @@ func runLife(c *kase) string {
 		}
 		for i := range ms {
 			wc <- ms[i]
+			if i == 0 && conn.gate != nil {
+				// the writer is now inside encode() of the first message, blocked in Write
+				select {
+				case <-conn.entered:
+				case <-time.After(lifeDeadline):
+					close(conn.gate)
+					return strings.Join(append(parts, "timeout-hold"), " | ")
+				}
+			}
 		}
-		// wait until the far end has everything (or the reader fails for good)
+		if conn.gate != nil {
+			close(conn.gate) // everything else is queued: the writer drains it in the same batch
+		}
+		// wait until the far end has everything (or the reader fails for good); heartbeat-shaped messages are
+		// written as link heartbeats and dropped by the reader
+		wantN := 0
+		for i := range ms {
+			if !(ms[i].Type == raftpb.MsgHeartbeat && ms[i].From == 0 && ms[i].To == 0) {
+				wantN++
+			}
+		}
 		var got []string
 		var e string
 		start = time.Now()
 		for {
-			all, ee := decodeAll(c.codec, conn.snapshot(), c.local, c.remote)
+			all, ee := decodeAll(codec, conn.snapshot(), c.local, c.remote)
 			got, e = dropHeartbeats(all), ee
-			if len(got) >= len(ms) || (e != "eof" && e != "ueof") {
+			if len(got) >= wantN || (e != "eof" && e != "ueof") {
 				break
 			}
 			if time.Since(start) > lifeDeadline {
